@@ -194,20 +194,16 @@ def run(ctx):
     ctx.ob("R08.4", "rtosc_bundle_p:magic-compared", lits == [MAGIC] and neg, site=A.where(fn), detail={"literal": lits, "returns_negated_strcmp": neg},
            what="rtosc_bundle_p compares with %r (negated: %s), expected !strcmp(msg, %r)" % (lits, neg, MAGIC))
     fn = u.function("rtosc_message_ring_length")
-    chars = {}
-    for x in A.walk(u.body(fn)):
-        if x.get("kind") == "BinaryOperator" and x.get("opcode") == "==":
-            l, r = A.kids(x)
-            lc = A.strip_casts(l)
-            if lc.get("kind") == "CallExpr" and A.callee_name(lc) == "deref":
-                k = A.int_literal(A.kids(lc)[1])
-                v = A.int_literal(r)
-                if k is not None and v is not None:
-                    chars[k] = v
-    got = "".join(chr(chars[k]) for k in sorted(chars)) if chars else ""
-    ctx.ob("R08.4", "rtosc_message_ring_length:magic-tested", sorted(chars) == list(range(8)) and got == MAGIC + "\0", site=A.where(fn),
-           detail={"bytes": {str(k): chars[k] for k in sorted(chars)}},
-           what="rtosc_message_ring_length recognises a bundle by bytes %r, expected %r" % (got, MAGIC + "\0"))
+    # which buffers are handed to bundle_ring_length: evaluated on probes (the test may be eight comparisons, a loop over a
+    # table, a helper ...)
+    from ..rules import bundlewalk as BW4
+    try:
+        badr = BW4.recognition(u)
+    except FD.Unknown as e:
+        raise AnalysisBroken("R08.4: rtosc_message_ring_length not evaluable on the recognition probes: %s" % e)
+    ctx.ob("R08.4", "rtosc_message_ring_length:magic-tested", not badr, site=A.where(fn),
+           detail={"probes": len(BW4.RECOG_PROBES), "mismatches": badr[:4]},
+           what="rtosc_message_ring_length does not recognise a bundle by exactly the bytes %r: %s" % (MAGIC + "\0", badr[:3]))
     # the comparison must be a conjunction guarding the call of bundle_ring_length
     calls = list(A.calls_in(u.body(fn), "bundle_ring_length"))
     ctx.ob("R08.4", "rtosc_message_ring_length:dispatches-to-bundle_ring_length", len(calls) == 1, site=A.where(fn),
@@ -246,40 +242,7 @@ def run(ctx):
     ctx.require(set(seen) == {"magic", "emplace_uint64", "elements"}, "R08.5: rtosc_bundle: header writes not recognised (%s)" % sorted(seen))
     ctx.ob("R08.5", "rtosc_bundle:offsets", seen == {"magic": 0, "emplace_uint64": 8, "elements": 16}, site=A.where(fn), detail=seen,
            what="rtosc_bundle lays out magic/time tag/elements at %s, expected 0/8/16" % seen)
-    for q in ("rtosc_bundle_elements", "rtosc_bundle_fetch", "rtosc_bundle_size"):
-        fn = u.function(q)
-        d = C.local_decl(u, fn, "lengths", required=False)
-        cands = [x for x in A.walk(u.body(fn)) if x.get("kind") == "VarDecl" and "uint32_t" in A.stype(x) and "*" in A.stype(x)]
-        if not cands and any(A.callee_name(c) in ("rtosc_bundle_fetch", "rtosc_bundle_elements") for c in A.calls_in(u.body(fn))):
-            continue      # delegates the walk
-        if len(cands) != 1:
-            ctx.note("%s: no single uint32_t cursor; its starting offset is decided by R08.9" % q)
-            continue
-        init = A.strip_casts(A.kids(cands[0])[-1])
-        okk = init.get("kind") == "BinaryOperator" and init.get("opcode") == "+" and A.int_literal(A.kids(init)[1]) == 16 and \
-            A.ref_id(A.kids(init)[0]) == u.params(fn)[0]["id"]
-        ctx.ob("R08.5", q + ":first-size-field", okk, site=A.where(cands[0]), detail={"init": A.src(init)},
-               what="%s starts walking at `%s`, expected buffer+16" % (q, A.src(init)))
-    fn = u.function("rtosc_bundle_timetag")
-    cs = list(A.calls_in(u.body(fn), "extract_uint64"))
-    okk = False
-    if len(cs) == 1:
-        a = A.strip_casts(A.kids(cs[0])[1])
-        okk = a.get("kind") == "BinaryOperator" and a.get("opcode") == "+" and A.int_literal(A.kids(a)[1]) == 8 and A.ref_id(A.kids(a)[0]) == u.params(fn)[0]["id"]
-    ctx.ob("R08.5", "rtosc_bundle_timetag:offset", okk, site=A.where(fn), what="rtosc_bundle_timetag does not read 8 bytes at msg+8")
-    fn = u.function("bundle_ring_length")
-    # initial value of the position cursor of bundle_ring_length (when it walks with a single `pos += ...` step)
-    sts = [x for x in A.walk(u.body(fn)) if x.get("kind") == "CompoundAssignOperator" and x.get("opcode") == "+="]
-    if len(sts) == 1:
-        pd = u.by_id[C.var_id(A.kids(sts[0])[0])]
-        try:
-            iv = FD.Eval().ev(A.kids(pd)[-1])
-        except FD.Unknown:
-            iv = None
-        ctx.ob("R08.5", "bundle_ring_length:first-size-field", iv == 16, site=A.where(pd), detail={"initial_position": iv},
-               what="bundle_ring_length starts at offset %s, expected 16" % iv)
-    else:
-        ctx.note("bundle_ring_length: starting offset decided by R08.9")
+    # the starting offsets of the readers and of rtosc_bundle_timetag are decided by R08.9 (layout evaluation)
 
     # ---- R08.6
     fn = u.function("rtosc_bundle")
@@ -437,7 +400,7 @@ def run(ctx):
         badw, nw = BW.run(u)
     except FD.Unknown as e:
         raise AnalysisBroken("R08.9: a bundle reader is not evaluable: %s" % e)
-    for rd in ("rtosc_bundle_elements", "rtosc_bundle_fetch", "rtosc_bundle_size", "bundle_ring_length"):
+    for rd in ("rtosc_bundle_elements", "rtosc_bundle_fetch", "rtosc_bundle_size", "bundle_ring_length", "rtosc_bundle_timetag"):
         br_ = [b_ for b_ in badw if b_["reader"] == rd]
         ctx.ob("R08.9", rd, not br_, site=A.where(u.function(rd)), detail={"layouts": [list(l_) for l_ in BW.LAYOUTS], "mismatches": br_[:4]},
                what="%s misreads a bundle laid out as the writer lays it out: %s" % (rd, br_[:2]))
